@@ -78,6 +78,8 @@ def main():
     for pid, pre in sorted(TIES.items()):
         body += "Definition golden_%s : list pstr := %s.\n" % (pid, L.lst([L.pstr(x) for x in pre], "pstr"))
     open(os.path.join(V, "coq", "theories", "Inst", "Golden.v"), "w").write(body)
+    import shutil
+    shutil.rmtree(d, ignore_errors=True)
     print("Golden.v written")
 
 
